@@ -19,7 +19,7 @@ EXPLANATION = (
     "exception isolation in the three _notify_subscribers (C07.R7 re-used). Ordering between concurrently completing callbacks is not decided."
 )
 ASSUMPTIONS = ["dataclass __eq__ compares all fields (the records are @dataclass without eq=False)", "set.add is idempotent, set.discard removes"]
-FLOORS = {"C12.R1": 27, "C12.R2": 9, "C12.R3": 8, "C12.R4": 20, "C12.R5": 3, "C12.R6": 1, "C12.R7": 1}
+FLOORS = {"C12.R1": 27, "C12.R2": 9, "C12.R3": 8, "C12.R4": 20, "C12.R5": 3, "C12.R6": 1, "C12.R7": 1, "C12.R8": 1}
 
 UPDATE_FUNCS = [
     (AT4_API, "At4Zone", "update_"),
@@ -42,6 +42,9 @@ def run(ctx):
     from . import c09
     from .common import reuse
 
+    from . import c10
+
+    reuse(ctx, "C12.R8", [c10.r4], "every record of a frame is dispatched to its own entity (unknown ids are skipped, the loop goes on), so every change reaches the subscribers of its entity (C10.R4)")
     reuse(ctx, "C12.R7", [lambda c: c09.r5(c, AT4_API), lambda c: c09.r5(c, AT5_API)], "each air-conditioner is given exactly the zones the console assigns to it, so zone changes reach the subscribers of the owning air-conditioner and of no other (C09.R5)")
 
 
@@ -239,6 +242,30 @@ def r3(ctx):
         ctx.check(ok, R, f"{clsname}.__init__:subscribes-own-zones", m, init.node, "the AC subscribes _zone_updated to each of its own zones", found)
         zs = [v for n, v in init.assigns("self._zones")]
         ctx.check(len(zs) == 1 and dotted(zs[0]) == "zones", R, f"{clsname}.__init__:zones", m, init.node, "self._zones is the constructor argument", ", ".join(unparse(z) for z in zs))
+    # the audience is read when the notification is issued: a snapshot of a subscriber set taken before an await would still
+    # call a subscriber that unsubscribed while the coroutine was suspended
+    for modname in (AT4_API, AT5_API, SOCKET):
+        m = ctx.repo.module(modname)
+        n_calls = 0
+        stale = []
+        for qual, fnode in iter_functions(m):
+            if ".<locals>." in qual or "." not in qual:
+                continue
+            if not any(isinstance(x, ast.Call) and (dotted(x.func) or "").endswith("_notify_subscribers") for x in walk_no_nested(fnode)):
+                continue
+            f = Fn(ctx.repo, m, qual)
+            for n, c in f.calls("_notify_subscribers"):
+                n_calls += 1
+                for x in ast.walk(c):
+                    if isinstance(x, ast.Name) and isinstance(x.ctx, ast.Load):
+                        for d in f.defs_reaching(x.id, n):
+                            val = getattr(d.ast, "value", None) if d.kind == "stmt" else None
+                            if val is not None and "subscribers" in norm_text(val) and "_notify" not in norm_text(val):
+                                aw = [a_ for a_ in f.awaits_between(d, n) if a_.id != n.id]
+                                if aw or d.awaits:
+                                    stale.append((qual, x.id, d, aw[0] if aw else d))
+        ctx.check(not stale, R, f"{modname.split('.', 1)[1]}:audience-read-at-notification", m, (stale[0][2].ast if stale else None), "the subscriber set is read when the notification is issued, not before an earlier await (unsubscribing stops further calls)",
+                  "; ".join(f"{q}: `{v}` is taken at line {d.lineno}, the coroutine can suspend at line {a_.lineno} before the subscribers are called" for q, v, d, a_ in stale[:3]) or f"{n_calls} notification sites")
     # subscribers are only ever invoked inside the argument of _notify_subscribers
     for modname in (AT4_API, AT5_API, SOCKET):
         m = ctx.repo.module(modname)
